@@ -30,6 +30,12 @@ CHECKS = {
  "C07": dict(cat="other", tech="abstract interpretation of optimised LLVM IR; select/min/max/abs/sign-bit normal forms; ordered-case table for float min/max",
    text="blend/keep/clear (select on the mask lane, operand order), integer min/max/minmax/clamp (predicate of the type's signedness), abs/neg_abs/negate (no nsw: abs(MIN) is MIN's pattern), float abs/neg_abs/negate/copysign (sign bit only), float min/max (picks smaller/larger operand in both strict orderings) are decided for every type x configuration; average/midpoint emulations are compared as closed forms (witness-refutable, else UNDECIDED).",
    note=TB + "; clamp witnesses restricted to lo<hi; float min/max only for ordered inputs as the statement scopes it", ref="4/C07"),
+ "C08": dict(cat="other", tech="byte provenance over optimised LLVM IR (load/store/masked/gather/scatter/shuffle transfer functions), exhaustive over element counts and lane indices; alignment-claim and poison obligations",
+   text="For every vector type x configuration and every element count n in 0..width+2 (compile-time forms, literal n, and the run-time form by substituting each n - plus large values up to 2^32-1 - into the if-converted summary) each returned byte of load/aligned_load/gather is proven to be memory byte p+j (resp. p[idx[i]]) or 0, each stored byte of store/aligned_store/scatter/to_array to be byte j of v at p+j and nothing else; extract<I>/insert<I> for every I move exactly lane I; unaligned forms must not claim vector alignment; the lane mask computation must not be poison for any n.",
+   note=TB + "; quick tier samples n and I for types wider than 16 lanes, thorough enumerates all", ref="4/C08"),
+ "C09": dict(cat="other", tech="architectural byte-footprint analysis over optimised LLVM IR with an ISA table classifying every memory-touching intrinsic (size, fault suppression)",
+   text="Same instance set as C08: the set of (base, byte range, read/write, fault-suppressed) accesses of each instance must lie inside [p, p+min(n,width)*size), be empty for n==0, and for gather/scatter contain only elements addressed by active lanes with sign-extended indices. MASKMOVDQU counts with its full 16-byte non-suppressed footprint (known finding).",
+   note=TB + "; SDM fault-suppression statements for masked moves/gathers", ref="4/C09"),
 }
 
 NA = {
